@@ -12,6 +12,7 @@ class Div:
     def __init__(self, suite, header, cfg, ops, idx, kind, expected, actual):
         self.suite, self.header, self.cfg, self.ops, self.idx = suite, header, cfg, ops, idx
         self.kind, self.expected, self.actual = kind, expected, actual
+        self.rules_ok = True      # False: the history had left the documented initialisation rules (model: zerodrop / zeroread / lost) by this step
     def op(self):
         return self.ops[self.idx] if 0 <= self.idx < len(self.ops) else ('init' if self.idx < 0 else 'live')
     def prefix(self):
@@ -162,6 +163,8 @@ def compare_shard(suite, shard, outs, stats, divs, maxdiv=200, collect=None, sat
         broken = False
         nspec = 0
         was_ok = True
+        rules = True
+        ndiv0 = len(divs)
         prev = ''
         got = []
         if collect is not None: collect.append((header, cfg, ops, got))
@@ -171,6 +174,7 @@ def compare_shard(suite, shard, outs, stats, divs, maxdiv=200, collect=None, sat
             if ' ## ' in m:
                 m, sat = m.split(' ## ', 1); sat = sat.replace('sat=', '')
             got.append(i)
+            if rules and re.search(r'\| ev=[^|]*(zerodrop|zeroread|lost)', m): rules = False
             if sat is not None and satlog is not None: satlog.append((header, cfg, ops, idx, sat, i))
             if idx >= 0:
                 stats.steps += 1
@@ -196,21 +200,21 @@ def compare_shard(suite, shard, outs, stats, divs, maxdiv=200, collect=None, sat
                 continue       # the process aborted after the history had left the contract: nothing to compare
             if m != i and not broken:
                 broken = True
-                if len(divs) < maxdiv: divs.append(Div(suite, header, cfg, ops, idx, 'tie', m, i))
+                if len(divs) < maxdiv: divs.append(Div(suite, header, cfg, ops, idx, 'tie', m, i)); divs[-1].rules_ok = rules
             if nospec and m != i and nspec < 6 and not i.startswith('<missing'):
                 # async suite: the model line is one synchronous attempt (proved); every departure is a failing input
                 nspec += 1
-                if len(divs) < maxdiv * 4: divs.append(Div(suite, header, cfg, ops, idx, 'spec', m, i))
+                if len(divs) < maxdiv * 4: divs.append(Div(suite, header, cfg, ops, idx, 'spec', m, i)); divs[-1].rules_ok = rules
             # the Spec stays the reference for the whole history (as long as the history respects the contract):
             # keep looking for steps where the implementation departs from it, also after the first divergence
             if s.startswith('+ ') and s[2:] != CA_RE.sub('', i) and nspec < 6 and not i.startswith('<missing'):
                 nspec += 1
-                if len(divs) < maxdiv * 4: divs.append(Div(suite, header, cfg, ops, idx, 'spec', s[2:], CA_RE.sub('', i)))
+                if len(divs) < maxdiv * 4: divs.append(Div(suite, header, cfg, ops, idx, 'spec', s[2:], CA_RE.sub('', i))); divs[-1].rules_ok = rules
         # live line: model and impl only
         m, mi = nxt(ml, mi); i, ii = nxt(il, ii)
         got.append(i)
         if not broken and m != i and not (i.startswith('<missing') and not was_ok) and len(divs) < maxdiv:
-            divs.append(Div(suite, header, cfg, ops, len(ops), 'tie', m, i))
+            divs.append(Div(suite, header, cfg, ops, len(ops), 'tie', m, i)); divs[-1].rules_ok = rules
         if mi < len(ml) and ml[mi].startswith('maps='):
             # vmem: mappings of the buffer's shared object that remain after it was released
             m, mi = nxt(ml, mi); i, ii = nxt(il, ii)
